@@ -21,7 +21,7 @@ ANCHORS = ["runlengtharray.py::RunLengthArray.__array_ufunc__", "runlengtharray.
            "runlengtharray.py::histogram", "runlengtharray.py::concatenate", "runlengtharray.py::RunLengthArray.__array_function__"]
 UNARY = ["negative", "absolute", "logical_not", "invert", "sqrt", "square", "sign", "isnan"]
 BINARY = ["add", "subtract", "multiply", "true_divide", "floor_divide", "remainder", "power", "maximum", "minimum", "equal", "not_equal", "less", "less_equal",
-          "greater", "greater_equal", "bitwise_and", "bitwise_or", "bitwise_xor", "left_shift", "right_shift", "logical_and", "logical_or", "logical_xor"]
+          "greater", "greater_equal", "bitwise_and", "bitwise_or", "bitwise_xor", "left_shift", "right_shift", "logical_and", "logical_or", "logical_xor", "hypot", "gcd", "lcm", "fmod", "copysign", "logaddexp"]
 ALIGN = ["identical", "coincident", "nested", "interleaved", "constA", "constB", "independent"]
 REDS = ["sum", "any", "all", "max", "mean", "np.sum", "np.any", "np.all", "np.mean"]
 KINDS = ["unary", "rl", "rl_derived", "inplace", "pyscalar", "npscalar", "reduce", "concat", "hist"]
